@@ -402,7 +402,16 @@ def gzip(compress_level=5, mime_types=['text/html', 'text/plain'],
             cherrypy.log('Not gzipping cached response', context='TOOLS.GZIP')
         return
 
-    acceptable = request.headers.elements('Accept-Encoding')
+    try:
+        acceptable = request.headers.elements('Accept-Encoding')
+        # qvalues are parsed lazily: look at each of them now.
+        [coding.qvalue for coding in acceptable]
+    except cherrypy.HTTPError as exc:
+        # Malformed qvalue. This hook runs again while that very error is
+        # being finalized, where raising it a second time would turn the
+        # 400 into a 500: answer it in place, like the 406 below.
+        exc.set_response()
+        return
     if not acceptable:
         # If no Accept-Encoding field is present in a request,
         # the server MAY assume that the client will accept any
